@@ -23,7 +23,8 @@ Theorems (over Model/ListOffsets.lean and Model/Seek.lean):
     mapping_exact_offsetFetch_all  nil/empty user map → NULL on the wire → every committed partition (an empty array would give none)
     mapping_exact_offsetFetch      coordinator state → OffsetFetch answer → user response = the state, per requested partition
     mapping_exact_offsetCommit_request / _response   every user commit reaches the wire unchanged; per-partition errors come back
-    mapping_exact_consumerOffsets  partition → committed offset of the coordinator
+    mapping_exact_consumerOffsets / consumerOffsets_group_error   partition → committed offset; a failed partition is left out and its
+                                   error returned, a group-level error fails the call (C19-D31 fixed)
     mapping_exact_metadata         every leader / replica / ISR id of the answer is reported as that id (listed or not: C19-D30 fixed);
                                    listed ids resolve to exactly that broker; order and fields kept
     mapping_exact_readPartitions   same for Conn.ReadPartitions (placeholder brokers for unlisted ids)
@@ -500,18 +501,70 @@ theorem mapping_exact_offsetCommit_response (res : List (String × List (Int × 
     simp
   · simp only [List.map_map]; exact hnd
 
-/-- **ConsumerOffsets**: partition → the coordinator's committed offset, for distinct partition ids -/
-theorem mapping_exact_consumerOffsets (c : Coord) (t : String) (ps : List Int) (hnd : ps.Nodup) (p : Int) (hp : p ∈ ps) :
-    (consumerOffsets ((ps.map (c.part t)).map convOF)).lookup p = some (c.value t p).1 := by
-  simp only [consumerOffsets, goMap]
-  apply lookup_foldl_ainsert
-  · simp only [List.map_map, List.mem_map]
-    exact ⟨p, hp, rfl⟩
-  · simp only [List.map_map]
-    have : ps.map ((fun x : Int × Int => x.1) ∘ (fun q : UOFPart => (q.partition, q.committed)) ∘ convOF ∘ c.part t) = ps := by
-      conv => rhs; rw [← List.map_id ps]
-      exact List.map_congr_left (fun _ _ => rfl)
-    rw [this]; exact hnd
+/-- **ConsumerOffsets** (after fix C19-D31), for distinct partition ids: a partition the coordinator answers without
+error is reported with exactly its committed offset; a partition it answers with an error is **not** in the map, and
+then an error naming a failed partition and its code is returned; a group-level error fails the whole call. -/
+theorem mapping_exact_consumerOffsets (c : Coord) (t : String) (ps : List Int) (hnd : ps.Nodup) :
+    ∃ m e, consumerOffsets 0 ((ps.map (c.part t)).map convOF) = .ok (m, e) ∧
+      (∀ p ∈ ps, (c.value t p).2.2 = 0 → m.lookup p = some (c.value t p).1) ∧
+      (∀ p ∈ ps, (c.value t p).2.2 ≠ 0 → m.lookup p = none) ∧
+      ((∃ p ∈ ps, (c.value t p).2.2 ≠ 0) → ∃ p code, e = some (p, code) ∧ p ∈ ps ∧ code = (c.value t p).2.2 ∧ code ≠ 0) ∧
+      ((∀ p ∈ ps, (c.value t p).2.2 = 0) → e = none) := by
+  refine ⟨_, _, rfl, ?_, ?_, ?_, ?_⟩
+  · intro p hp h0
+    simp only [goMap]
+    apply lookup_foldl_ainsert
+    · simp only [List.mem_map, List.mem_filter]
+      refine ⟨convOF (c.part t p), ⟨?_, ?_⟩, rfl⟩
+      · exact ⟨c.part t p, ⟨p, hp, rfl⟩, rfl⟩
+      · simp [convOF, Coord.part, h0]
+    · have hsub : ((((ps.map (c.part t)).map convOF).filter (·.error == 0)).map fun q => (q.partition, q.committed)).map (·.1)
+          = (ps.filter fun q => (c.value t q).2.2 == 0) := by
+        simp only [List.map_map, List.filter_map, Function.comp]
+        conv => rhs; rw [← List.map_id (ps.filter _)]
+        apply List.map_congr_left
+        intro q _; rfl
+      rw [hsub]
+      exact hnd.sublist List.filter_sublist
+  · intro p _ hne
+    simp only [goMap]
+    apply lookup_foldl_ainsert_none
+    intro e he
+    simp only [List.mem_map, List.mem_filter] at he
+    obtain ⟨q, ⟨⟨r, ⟨x, _, rfl⟩, rfl⟩, hq⟩, rfl⟩ := he
+    intro heq
+    have hx : x = p := heq
+    subst hx
+    simp [convOF, Coord.part] at hq
+    exact hne hq
+  · rintro ⟨p, hp, hne⟩
+    have hex : ∃ q ∈ (ps.map (c.part t)).map convOF, (q.error != 0) = true :=
+      ⟨convOF (c.part t p), List.mem_map.mpr ⟨c.part t p, List.mem_map.mpr ⟨p, hp, rfl⟩, rfl⟩, by simp [convOF, Coord.part, hne]⟩
+    cases hf : ((ps.map (c.part t)).map convOF).find? (fun q => q.error != 0) with
+    | none =>
+      obtain ⟨q, hq, hq2⟩ := hex
+      have := List.find?_eq_none.mp hf q hq
+      simp [hq2] at this
+    | some q =>
+      have hmem := List.mem_of_find?_eq_some hf
+      have hpred := List.find?_some hf
+      simp only [List.mem_map] at hmem
+      obtain ⟨r, ⟨x, hx, rfl⟩, rfl⟩ := hmem
+      refine ⟨x, (c.value t x).2.2, ?_, hx, rfl, ?_⟩
+      · simp [convOF, Coord.part]
+      · simpa [convOF, Coord.part] using hpred
+  · intro hall
+    have : ((ps.map (c.part t)).map convOF).find? (fun q => q.error != 0) = none := by
+      apply List.find?_eq_none.mpr
+      intro q hq
+      simp only [List.mem_map] at hq
+      obtain ⟨r, ⟨x, hx, rfl⟩, rfl⟩ := hq
+      simp [convOF, Coord.part, hall x hx]
+    simp only [this, Option.map_none]
+
+theorem consumerOffsets_group_error (g : Int) (hg : g ≠ 0) (fetched : List UOFPart) :
+    consumerOffsets g fetched = .error g := by
+  simp [consumerOffsets, hg]
 
 /-- the broker map built from a listing with distinct node ids resolves every listed id to its entry -/
 theorem brokerMap_lookup (bs : List MBroker) (hnd : (bs.map (·.nodeID)).Nodup) (b : MBroker) (hb : b ∈ bs) :
